@@ -71,7 +71,7 @@ def _get_attributes(feature: Feature) -> dict[str, str]:
         atributes['mandatory'] = 'true'
     if feature.is_abstract:
         atributes['abstract'] = 'true'
-    atributes['name'] = safename(feature.name)
+    atributes['name'] = feature.name  # XML attribute values need no quoting
     return atributes
 
 
@@ -117,7 +117,7 @@ def _get_ctc_info(ast_node: Node) -> dict[str, Any]:
     ctc_info: dict[str, Any] = {}
     if ast_node.is_term():
         ctc_info['type'] = FeatureIDEReader.TAG_VAR
-        ctc_info['operands'] = [safename(str(ast_node.data))]
+        ctc_info['operands'] = [str(ast_node.data)]
     elif ast_node.data == ASTOperation.EXCLUDES:
         # FeatureIDE has no excludes element: A excludes B is written as A implies not B
         ctc_info['type'] = FeatureIDEReader.TAG_IMP
